@@ -18,7 +18,7 @@ from explore import expect, conc, Violation
 PROPERTY = 'C17'
 CICADA = os.path.join(hsupport.VERIF, 'build/bin/debug/cicada')
 HELPERS = os.path.join(hsupport.VERIF, 'helpers/bin')
-BUDGET = {'quick': 420, 'thorough': 3000}
+BUDGET = {'quick': 900, 'thorough': 3000}
 BOUNDS = {'quick': dict(name_len=1, s_len=1), 'thorough': dict(name_len=2, s_len=2)}
 ASSUMPTIONS = [
     'inductive step: table {o -> `oo x`} (+ optionally an older definition of the same name = redefinition) -> one `alias NAME=VALUE` line; NAME: name_len symbolic characters of [A-Za-z0-9_.-]; VALUE: templates {S | "S" S | S | S (pipe) | o S (other alias) | NAME -S (itself)} with S = s_len symbolic characters, written in single quotes, double quotes or bare',
